@@ -121,6 +121,71 @@ func registerExternals(w *World) {
 		a, b := args[0].(iface), args[1].(iface)
 		return fr.in.mk(types.Bool, fr.in.sameState(a.v, b.v, 0)), true
 	}
+	x[zzPkg+".MapHandles"] = func(fr *frame, args []value) (value, bool) {
+		// MapHandles(x any, typeName string, table []uint32) any
+		in := fr.in
+		xv := args[0].(iface)
+		typeName := args[1].(string)
+		if !strings.Contains(typeName, "/") {
+			typeName = modPath + "/" + typeName
+		}
+		table := args[2].([]value)
+		f := func(v value) value {
+			k, _ := kindOfValue(v)
+			if s, ok := v.(*Sym); ok {
+				if len(table) == 0 {
+					return v
+				}
+				// out-of-table values are left unchanged (identity), in-table ones mapped
+				w := kindWidth(s.K)
+				inTab := in.tp.bvCmp(OpBVUlt, s.T, in.tp.BV(uint64(len(table)), w))
+				r := s.T
+				for i := len(table) - 1; i >= 0; i-- {
+					r = in.tp.Ite(in.tp.Eq(s.T, in.tp.BV(uint64(i), w)), in.termOf(table[i]), r)
+				}
+				_ = inTab
+				return in.mk(k, r)
+			}
+			i := asInt64(v)
+			if i >= 0 && int(i) < len(table) {
+				return table[i]
+			}
+			return v
+		}
+		if xv.t == nil {
+			return xv, true
+		}
+		return iface{t: xv.t, v: in.mapNamed(xv.t, xv.v, typeName, f, 0)}, true
+	}
+	x[zzPkg+".CheckImplementors"] = func(fr *frame, args []value) (value, bool) {
+		// CheckImplementors(ifaceName string, listed []any): every implementor must be listed
+		in := fr.in
+		want := in.w.implementors(args[0].(string))
+		have := map[string]bool{}
+		for _, e := range args[1].([]value) {
+			if ev, ok := e.(iface); ok && ev.t != nil {
+				s := ev.t.String()
+				if i := strings.LastIndex(s, "."); i >= 0 {
+					s = s[i+1:]
+				}
+				have[s] = true
+			}
+		}
+		var missing []string
+		for _, wn := range want {
+			if !have[wn] {
+				missing = append(missing, wn)
+			}
+		}
+		if len(want) == 0 {
+			panic(unsupported{"CheckImplementors: interface not found: " + args[0].(string)})
+		}
+		if len(missing) > 0 {
+			in.notes["stale-harness:"+args[0].(string)] = strings.Join(missing, ",")
+			panic(unsupported{"STALE-HARNESS: kinds implementing " + args[0].(string) + " not covered by the harness: " + strings.Join(missing, ",")})
+		}
+		return nil, true
+	}
 	x[zzPkg+".AtomConcretize"] = func(fr *frame, args []value) (value, bool) {
 		fr.in.atomConcretize = args[0].(bool)
 		return nil, true
